@@ -78,6 +78,8 @@ func (reg *Reg) ManifestDelete(ctx context.Context, r ref.Ref, opts ...scheme.Ma
 	if resp.HTTPResponse().StatusCode != 202 {
 		return fmt.Errorf("failed to delete manifest %s: %w", r.CommonName(), reghttp.HTTPError(resp.HTTPResponse().StatusCode))
 	}
+	// a concurrent get or put of the same digest may have stored the manifest again since the cache was cleared above
+	reg.cacheMan.Delete(rCache)
 
 	return nil
 }
